@@ -98,6 +98,7 @@ func c20Gen(g *core.Gen) {
 				{"create", "-s", "4", "-c", "0", "{PAR}", "{F0}"}, {"create", "-s", "4", "-c", "-1", "{PAR}", "{F0}"}, {"create", "-s", "4", "-c", "255", "{PAR}", "{F0}", "{F1}"}, {"create", "-s", "4", "-c", "256", "{PAR}", "{F0}", "{F1}"},
 				{"create", "-s", "4", "-c", "32768", "{PAR}", "{F0}"}, {"create", "-s", "4", "-c", "65536", "{PAR}", "{F0}"}, {"create", "-s", "4", "-c", "65535", "{PAR}", "{F0}"}, {"create", "-s", "4", "-c", "65534", "{PAR}", "{F0}"}, {"create", "-s", "4", "-c", "100", "{PAR}", "{F0}", "{F1}"},
 				{"-g", "0", "create", "-s", "4", "{PAR}", "{F0}", "{F1}"}, {"-g", "-3", "create", "-s", "4", "{PAR}", "{F0}", "{F1}"}, {"-g", "100000", "create", "-s", "4", "{PAR}", "{F0}", "{F1}"},
+				{"create", "-s", "4", "{PAR}", "{F0}", "{LK0}", "{LK1}", "{LK2}"}, {"create", "-s", "4", "{PAR}", "{LK0}", "{F1}"}, {"create", "-s", "4", "{PAR}", "{LK2}", "{LK1}"},
 				{"create", "-s", "4", "{PAR}", "{F0}", "{F0}"}, {"create", "-s", "4", "{PAR}", "{PAR}"}, {"create", "-s", "4", "{PAR}"},
 			} {
 				g.Emit(&c20Case{Fmt: f, Cmd: c, Class: "create", State: "boundary", Cwd: cw})
@@ -156,6 +157,21 @@ func c20Run(ci interface{}, r *core.Rec) {
 		datas = append(datas, d)
 	}
 	index := filepath.Join(setDir, "s"+ext)
+	// data files whose names look like members of the set (index base + ".p...", ".par2...", ".vol...")
+	lookalikes := map[string][]byte{}
+	for i, n := range []string{"s.pdf", "s.par2.txt", "s.vol-notes"} {
+		usesIt := false
+		for _, a := range c.Cmd {
+			if a == fmt.Sprintf("{LK%d}", i) {
+				usesIt = true
+			}
+		}
+		if usesIt {
+			d := scen.Content("uniq", r.Seed, 20+i, 9+i, 4)
+			ioutil.WriteFile(filepath.Join(setDir, n), d, 0644)
+			lookalikes[filepath.Join(setDir, n)] = d
+		}
+	}
 	if c.Class != "create" {
 		var err error
 		if strings.HasPrefix(c.State, "recreated") {
@@ -348,6 +364,12 @@ func c20Run(ci interface{}, r *core.Rec) {
 				a = spell(paths[0])
 			case "{F1}":
 				a = spell(paths[1])
+			case "{LK0}":
+				a = spell(filepath.Join(setDir, "s.pdf"))
+			case "{LK1}":
+				a = spell(filepath.Join(setDir, "s.par2.txt"))
+			case "{LK2}":
+				a = spell(filepath.Join(setDir, "s.vol-notes"))
 			case "{MISSING}":
 				a = spell(filepath.Join(setDir, "does-not-exist"))
 			case "{NODIR}":
@@ -481,6 +503,41 @@ func c20Run(ci interface{}, r *core.Rec) {
 			if !clean {
 				r.Violatef("create-exit-0-but-set-not-valid", "%s; library Verify: %v", what, verr)
 			}
+			// every input file named on the command line must be protected by the set: take each away in turn
+			var inputs []string
+			for i, a := range cmdT {
+				switch a {
+				case "{F0}":
+					inputs = append(inputs, paths[0])
+				case "{F1}":
+					inputs = append(inputs, paths[1])
+				case "{LK0}", "{LK1}", "{LK2}":
+					_ = i
+					inputs = append(inputs, filepath.Join(setDir, map[string]string{"{LK0}": "s.pdf", "{LK1}": "s.par2.txt", "{LK2}": "s.vol-notes"}[a]))
+				}
+			}
+			for _, in := range inputs {
+				b, rerr := ioutil.ReadFile(in)
+				if rerr != nil {
+					continue
+				}
+				os.Remove(in)
+				needed := true
+				if c.Fmt == "p2" {
+					if res, e := par2.Verify(index, par2.VerifyOptions{NumGoroutines: 1}); e == nil {
+						needed = res.ShardCounts.RepairNeeded()
+					}
+				} else {
+					if res, e := par1.Verify(index, par1.VerifyOptions{}); e == nil {
+						needed = res.FileCounts.RepairNeeded()
+					}
+				}
+				ioutil.WriteFile(in, b, 0644)
+				if !needed {
+					r.Violatef("create-exit-0-but-an-input-is-not-protected", "%s: with %s taken away the new set still verifies clean", what, in)
+				}
+			}
+			after = snapTree(root)
 			for p := range after {
 				if _, ok := before[p]; !ok && !strings.HasPrefix(p, setDir+"/s.") {
 					r.Violatef("create-wrote-unexpected-file", "%s created %s", what, p)
@@ -533,8 +590,8 @@ func init() {
 	core.Register(&core.Prop{
 		ID:    "C20",
 		Level: "model_checking",
-		Rule: "full product through the built par binary: {PAR1, PAR2} x {verify, v, VERIFY, -g 2 verify, verify -a; repair, r, Repair, repair -doublecheck, -g 3 r -doublecheck=true} x archive state {intact, repairable by deletion, by shift/change, by removing appended bytes, shift+deletion, unrepairable, no parity (data intact / file deleted / file only shifted), one block left + shift, damaged index, missing index, a 17000-byte first file intact / damaged beyond or within its first 16 KiB with exactly one recovery block (volume) left or with all} x invocation directory {set directory with relative paths, parent with relative paths, unrelated with absolute paths}; command histories: a first verify / repair followed by every sequence of 2 (thorough 3) further steps from {verify, verify -a, repair, repair -doublecheck, delete a file, restore all files} from 5 starting states, every command judged against the byte truth at that moment; create variants (incl. option values at and beyond their limits - slice size 0 / 6 / negative / 2^20, block count 0 / -1 / 255 / 256 / 32768 / 65534 / 65535 / 65536, goroutines 0 / negative / 100000, an input listed twice, the index as its own input, no input: there only 'exit 0 => complete valid set' is judged -; missing input, missing directory, an output path blocked by a directory: index, first and last recovery file), 11 usage-error command lines, unknown extensions. " +
-			"Oracle (one-directional, as stated): exit 0 => full success by byte truth / library re-verification; verify needed&possible => 1, needed&impossible => 2; repair needed&impossible => 2, possible => 0 and files restored; usage => 3; other failures => neither 0 nor 3; no Go panic; files created relative to the invocation directory. non-trivial = verify/repair/create runs",
+		Rule: "full product through the built par binary: {PAR1, PAR2} x {verify, v, VERIFY, -g 2 verify, verify -a; repair, r, Repair, repair -doublecheck, -g 3 r -doublecheck=true} x archive state {intact, repairable by deletion, by shift/change, by removing appended bytes, shift+deletion, unrepairable, no parity (data intact / file deleted / file only shifted), one block left + shift, damaged index, missing index, a 17000-byte first file intact / damaged beyond or within its first 16 KiB with exactly one recovery block (volume) left or with all} x invocation directory {set directory with relative paths, parent with relative paths, unrelated with absolute paths}; command histories: a first verify / repair followed by every sequence of 2 (thorough 3) further steps from {verify, verify -a, repair, repair -doublecheck, delete a file, restore all files} from 5 starting states, every command judged against the byte truth at that moment; create variants (incl. option values at and beyond their limits - slice size 0 / 6 / negative / 2^20, block count 0 / -1 / 255 / 256 / 32768 / 65534 / 65535 / 65536, goroutines 0 / negative / 100000, an input listed twice, the index as its own input, no input, inputs whose names look like members of the set (s.pdf, s.par2.txt, s.vol-notes): there only 'exit 0 => complete valid set' is judged -; missing input, missing directory, an output path blocked by a directory: index, first and last recovery file), 11 usage-error command lines, unknown extensions. " +
+			"Oracle (one-directional, as stated): exit 0 => full success by byte truth / library re-verification (for create also: taking any one input away makes the new set need repair); verify needed&possible => 1, needed&impossible => 2; repair needed&impossible => 2, possible => 0 and files restored; usage => 3; other failures => neither 0 nor 3; no Go panic; files created relative to the invocation directory. non-trivial = verify/repair/create runs",
 		Assumptions: []string{"'needed' = some protected file not byte-identical; 'possible' = reference count of unfindable slices (unusable files) <= intact recovery blocks (volumes) present"},
 		NewCase:     func() interface{} { return &c20Case{} },
 		Gen:         c20Gen,
